@@ -8,11 +8,11 @@
 using namespace vf;
 
 static GuardBuf *g_in, *g_out;
-static void init(int) { g_in = new GuardBuf(1 << 16); g_out = new GuardBuf(1 << 16); }
+static void init(int) { g_in = new GuardBuf(1 << 19); g_out = new GuardBuf(1 << 19); }
 
 // one evaluation: input bytes, announced output size
 static void eval(uint64_t idx, const std::vector<uint8_t> &in, size_t out_size, const ref::Lz4Result &rr, ShardCtl &c, const char *family) {
-    if (out_size == 0 || out_size > 60000 || in.size() > 60000) return;
+    if (out_size == 0 || out_size > 500000 || in.size() > 500000) return;
     uint8_t *pi = g_in->place(in.data(), in.size()); uint8_t *po = g_out->place(nullptr, out_size); memset(po, 0xEE, out_size);
     int r = lz4::decompress(pi, in.size(), po, out_size);
     const char *why = nullptr;
@@ -51,6 +51,9 @@ struct LR { size_t lit1, mat1, off1, lit2, mat2, off2, fin; int dl; }; static st
 static void setup_longruns(Runner &r, const Tier &) {
     g_lr.clear(); static const size_t LL[8] = { 0, 269, 270, 271, 524, 525, 526, 780 }, MM[8] = { 4, 273, 274, 275, 528, 529, 530, 784 }, OO[6] = { 1, 2, 7, 8, 16, 0 /* = produced */ };
     for (size_t n = 0; n <= 800; ++n) for (int d = 0; d < 4; ++d) g_lr.push_back({ 0, 0, 0, 0, 0, 0, n, d });                                  // literals only
+    // lengths that need 257 and more extension bytes (a 16-bit length accumulator wraps at 65536)
+    for (size_t n : { size_t(65534), size_t(65535), size_t(65536), size_t(65537), size_t(65551), size_t(70000), size_t(131072), size_t(131077) }) for (int d = 0; d < 4; d += 2) g_lr.push_back({ 0, 0, 0, 0, 0, 0, n, d });
+    for (size_t m : { size_t(65538), size_t(65539), size_t(65540), size_t(65541), size_t(65555), size_t(70000), size_t(131076) }) for (size_t o : { size_t(1), size_t(16) }) for (size_t l : { size_t(16), size_t(65536) }) g_lr.push_back({ l, m, o, 0, 0, 0, 12, 0 });
     for (size_t l : LL) for (size_t m : MM) for (size_t o : OO) for (size_t f : { size_t(5), size_t(12), size_t(270) }) for (int d = 0; d < 4; ++d) { if (l == 0 && o != 0) continue; g_lr.push_back({ l, m, o, 0, 0, 0, f, d }); }
     for (size_t l : { size_t(1), size_t(270) }) for (size_t m : MM) for (size_t o : OO) for (size_t m2 : MM) for (size_t o2 : OO) for (int d = 0; d < 2; ++d) g_lr.push_back({ l, m, o, 0, m2, o2, 12, d * 2 });   // second sequence with zero literals
     r.ncases = g_lr.size(); r.alarm_every = 256; r.case_alarm_s = 120; r.shard_init = init;
